@@ -25,6 +25,8 @@ func init() {
 			{ID: "C20.R10", Floor: 4, Run: mapperDelegates, Text: "delegation (= C18.R13)"},
 			{ID: "C20.R11", Floor: 1, Run: resourceTableSizedOnce, Text: "the resource table is sized once (= C15.R8): resource ids registered after a Reset stay inside it"},
 			{ID: "C20.R12", Floor: 2, Run: typeArgPassedThrough, Text: "TypeID / ResourceTypeID hand the reflect.Type they were given to the registry unchanged (T and *T are different types)"},
+			{ID: "C20.R13", Floor: 1, Run: resetNoPreconditionPanics, Text: "Reset cannot fail on state (= C15.R10): resetting resources does not depend on which resources are present"},
+			{ID: "C20.R14", Floor: 1, Run: resourceTableSize, Text: "the resource table has exactly MaskTotalBits slots"},
 		},
 	})
 }
